@@ -46,8 +46,8 @@ def minLookup (m : List (Nat × Nat)) (g : Nat) : Nat :=
 
 def minHas (m : List (Nat × Nat)) (g : Nat) : Bool := m.any (·.1 == g)
 
-def minSet (m : List (Nat × Nat)) (g v : Nat) : List (Nat × Nat) :=
-  if minHas m g then m.map (fun p => if p.1 == g then (g, v) else p) else m ++ [(g, v)]
+/-- `m[g] = v`: the association list is read front to back, so the newest binding wins -/
+def minSet (m : List (Nat × Nat)) (g v : Nat) : List (Nat × Nat) := (g, v) :: m
 
 /-- `if minID, ok := m[g]; !ok || id < minID { m[g] = id }` -/
 def minLower (m : List (Nat × Nat)) (g id : Nat) : List (Nat × Nat) :=
